@@ -62,6 +62,45 @@ CHECKS = {
         note="Trusted: TLC, the harness tokeniser and name lookup, GCC 12 for the compiled batch. Values are "
              "limited to 32 bits; the a - -b spelling (non-standard Fortran) is written with parentheses.",
     ),
+    "C09": dict(
+        level="model_checking",
+        design="DESIGN.md section 4 / C09",
+        technique="TLA+ attribute grammar DeclGrammar (Tokens/Proj/CxxTok of a derivation, phase machine) "
+                  "explored by TLC; every derivation rendered to text, parsed / unparsed / re-parsed by the real "
+                  "declast and compared field by field with the specification by TLC (Trace_DeclGrammar); g++ "
+                  "std::is_same between the original text and Shroud's C++ rendering",
+        text="The grammar specification fixes, for each derivation (storage, cv placement before/after the type, 17 "
+             "base types incl. std::string, std::vector<T>, classes and qualified names, pointer/reference chains "
+             "with cv at every level, function pointers, parameter lists, method const, arrays, attributes, default "
+             "values), the sentence, the meaning in the shape of Shroud's AST and the C++ rendering. TLC replays all "
+             "derivations below a bound through the phase machine (balanced prefixes, completeness, same pointer "
+             "structure in the rendering). Conformance: ~6k (thorough ~45k) derivations are parsed by the real "
+             "check_decl, projected, rendered by gen_arg_as_cxx and gen_decl, re-parsed, and judged by TLC; a batch "
+             "is decided by g++ is_same, which ties both Shroud and the specification's rendering to a compiler.",
+        note="Trusted: TLC, the harness text renderer / C lexer / AST projection (field copying), g++ 12. "
+             "Renderings of template-instance parameters inside a function rendering are not compared (documented "
+             "wrapper convention). Domain limited to the rows in harness/declgen.py.",
+    ),
+    "C17": dict(
+        level="model_checking",
+        design="DESIGN.md section 4 / C17",
+        technique="TLA+ specs DeclMutate (token edits of grammar sentences, sound syntactic oracle Judge) and Attrs "
+                  "(attribute legality table from docs/input.rst) checked by TLC; outcome classes of the real "
+                  "check_decl + create_library_from_dictionary + generate_functions for every mutant, random token "
+                  "strings, attribute rows, YAML structure rows and context rows validated by TLC (Trace_Invalid), "
+                  "including history independence",
+        text="TLC shows on the model that the oracle never condemns an accepted sentence of the grammar and "
+             "enumerates every single-token mutant (delete, insert, replace, swap, append). Conformance: valid "
+             "sentences x single-token edits, random token strings of length <= 12, the attribute table (target x "
+             "type shape x names x values x documented illegal pairs), YAML structure rows and template-context "
+             "rows are pushed through the real front end; outcomes accept / clean reject / internal / hang are "
+             "judged: never internal or hang, accepted text is bracket-balanced with no trailing or empty-slot "
+             "tokens, documented sentences and legal attribute uses are accepted, illegal ones rejected with a "
+             "message, and a re-run of the same input in another order gives the same outcome.",
+        note="Trusted: TLC, the harness classification of exception types, a 3 s alarm for hangs. The syntactic "
+             "oracle is deliberately sound rather than complete; attribute rows the documentation leaves open are "
+             "not judged. Known findings in KNOWN_FINDINGS.txt.",
+    ),
 }
 
 ALL = ["C%02d" % i for i in range(1, 19)]
